@@ -1,43 +1,52 @@
 (** The pub/sub glob matcher (Model/PubSub.v ps_match, pubsub.rs:370-427) decides the
     declarative glob relation [GlobSpec]: soundness and completeness of the iterative
     single-star backtracking loop, for all patterns and texts. *)
-From Ferrous Require Import Base.Bytes Model.Types Model.PubSub Proofs.BytesFacts.
+From Ferrous Require Import Base.Bytes Model.Types Model.Glob Model.PubSub Proofs.BytesFacts.
 Open Scope Z_scope.
 
 (** Declarative glob: [*] = 42 any (possibly empty) string, [?] = 63 any one byte, [\x] = 92 x
-    the byte x, a trailing backslash stands for itself, [[...]] = 91 ... 93 a character class
+    the byte x, a trailing backslash stands for itself, [[...]] = 91 ... a character class
     standing for one byte, any other byte for itself.
 
-    A class runs from the '[' to the FIRST ']' after it (so ']' cannot be a member and a
-    backslash inside a class is an ordinary member); what is between them ([inner]) is a list
-    of items read left to right: `x-y` (when at least three bytes remain and the middle one
-    is '-') is the range of bytes x..y, any other byte is itself.  A leading '^' negates.
-    `[]` accepts nothing, `[^]` every byte.  A '[' without any ']' after it matches nothing
-    (there is no constructor for it). *)
-Fixpoint class_items (body : bytes) : list (Z * Z) :=
-  match body with
-  | [] => []
-  | lo :: rest =>
-      match rest with
-      | m :: hi :: rest' => if m =? 45 then (lo, hi) :: class_items rest' else (lo, lo) :: class_items rest
-      | _ => (lo, lo) :: class_items rest
-      end
+    A class (after 5de9d19: as in Redis' stringmatchlen) is read left to right from the byte
+    after the '[' - after a leading '^', which negates -: [class_parse] gives its items and
+    the pattern that follows it.  A backslash followed by another byte is that byte; `x-y`
+    (when at least three bytes remain) is the range between x and y, whichever is greater;
+    any other byte is itself; the first unescaped ']' closes the class; a class that is
+    never closed runs to the end of the pattern.  `[]` accepts nothing, `[^]` every byte. *)
+Fixpoint class_parse (q : bytes) : list (Z * Z) * bytes :=
+  match q with
+  | [] => ([], [])
+  | a :: r =>
+      if a =? 93 then ([], r)
+      else
+        match r with
+        | x :: r2 =>
+            if a =? 92 then (let (it, rest) := class_parse r2 in ((x, x) :: it, rest))
+            else
+              match r2 with
+              | b :: r3 =>
+                  if x =? 45 then (let (it, rest) := class_parse r3 in ((Z.min a b, Z.max a b) :: it, rest))
+                  else (let (it, rest) := class_parse r in ((a, a) :: it, rest))
+              | [] => (let (it, rest) := class_parse r in ((a, a) :: it, rest))
+              end
+        | [] => ([(a, a)], [])
+        end
   end.
-Definition in_class (body : bytes) (c : Z) : Prop :=
-  exists lo hi, In (lo, hi) (class_items body) /\ lo <= c <= hi.
-Definition class_accepts (inner : bytes) (c : Z) : Prop :=
-  match inner with
-  | [] => False
-  | c0 :: body => if c0 =? 94 then ~ in_class body c else in_class inner c
-  end.
+Definition in_items (items : list (Z * Z)) (c : Z) : Prop :=
+  exists lo hi, In (lo, hi) items /\ lo <= c <= hi.
+(** (negated?, items, pattern after the class) of the pattern [91 :: p'] *)
+Definition class_split (p' : bytes) : bool * list (Z * Z) * bytes :=
+  let negate := match p' with c :: _ => c =? 94 | [] => false end in
+  let (items, rest) := class_parse (if negate then tl p' else p') in (negate, items, rest).
 
 Inductive GlobSpec : bytes -> bytes -> Prop :=
 | GS_nil : GlobSpec [] []
 | GS_any : forall p c s, GlobSpec p s -> GlobSpec (63 :: p) (c :: s)
 | GS_star0 : forall p s, GlobSpec p s -> GlobSpec (42 :: p) s
 | GS_star1 : forall p c s, GlobSpec (42 :: p) s -> GlobSpec (42 :: p) (c :: s)
-| GS_class : forall inner p c s, ~ In 93 inner -> class_accepts inner c -> GlobSpec p s ->
-    GlobSpec (91 :: inner ++ 93 :: p) (c :: s)
+| GS_class : forall p' c s neg items rest, class_split p' = (neg, items, rest) ->
+    (in_items items c <-> neg = false) -> GlobSpec rest s -> GlobSpec (91 :: p') (c :: s)
 | GS_esc : forall p c s, GlobSpec p s -> GlobSpec (92 :: c :: p) (c :: s)
 | GS_esc_end : GlobSpec [92] [92]
 | GS_lit : forall p c s, c <> 63 -> c <> 42 -> c <> 91 -> c <> 92 -> GlobSpec p s -> GlobSpec (c :: p) (c :: s).
@@ -84,71 +93,96 @@ Proof.
 Qed.
 
 (** ---- classes ---- *)
-Lemma split_close_spec : forall p a b, split_close p = Some (a, b) -> p = a ++ 93 :: b /\ ~ In 93 a.
+Definition items_b (items : list (Z * Z)) (c : Z) : bool :=
+  existsb (fun it => (fst it <=? c) && (c <=? snd it)) items.
+Lemma items_b_iff items c : items_b items c = true <-> in_items items c.
 Proof.
-  induction p as [|c r IH]; intros a b; cbn [split_close]; [discriminate|].
-  destruct (Z.eqb_spec c 93) as [->|N].
-  - intros H; injection H as <- <-. split; [reflexivity | intros []].
-  - destruct (split_close r) as [[a' b']|]; [|discriminate].
-    intros H; injection H as <- <-. destruct (IH a' b' eq_refl) as [-> Hn].
-    split; [reflexivity|]. intros [E|E]; [congruence | exact (Hn E)].
+  unfold items_b, in_items. rewrite existsb_exists. split.
+  - intros ([lo hi] & Hin & H). cbn [fst snd] in H. exists lo, hi. split; [exact Hin | lia].
+  - intros (lo & hi & Hin & H). exists (lo, hi). split; [exact Hin | cbn [fst snd]; lia].
 Qed.
-Lemma split_close_app : forall a b, ~ In 93 a -> split_close (a ++ 93 :: b) = Some (a, b).
+Lemma eqb_range a c : (c =? a) = (a <=? c) && (c <=? a).
+Proof. destruct (Z.eqb_spec c a); destruct (Z.leb_spec a c); destruct (Z.leb_spec c a); try reflexivity; lia. Qed.
+
+Lemma class_scan_spec : forall n q tc m, (length q <= n)%nat ->
+  class_scan q tc m = (m || items_b (fst (class_parse q)) tc, snd (class_parse q)).
 Proof.
-  induction a as [|c a IH]; intros b Hn; cbn [app split_close].
-  - reflexivity.
-  - destruct (Z.eqb_spec c 93) as [->|N]; [exfalso; apply Hn; left; reflexivity|].
-    rewrite IH; [reflexivity|]. intros E. apply Hn. right. exact E.
+  induction n as [|n IH]; intros q tc m L.
+  - destruct q; [|simpl in L; lia]. cbn. rewrite orb_false_r. reflexivity.
+  - destruct q as [|a r]; [cbn; rewrite orb_false_r; reflexivity|].
+    cbn [class_scan class_parse]. destruct (a =? 93); [cbn; rewrite orb_false_r; reflexivity|].
+    assert (Single : forall r0, (length r0 <= n)%nat ->
+              class_scan r0 tc (m || (tc =? a))
+              = (m || items_b (fst (let (it, rest) := class_parse r0 in ((a, a) :: it, rest))) tc,
+                 snd (let (it, rest) := class_parse r0 in ((a, a) :: it, rest)))).
+    { intros r0 L0. rewrite (IH r0 tc _ L0). destruct (class_parse r0) as [it rest]. cbn [fst snd items_b existsb].
+      rewrite (eqb_range a tc), orb_assoc. reflexivity. }
+    destruct r as [|x r2].
+    + cbn [fst snd items_b existsb]. rewrite (eqb_range a tc), orb_false_r. reflexivity.
+    + destruct (a =? 92).
+      * rewrite (IH r2 tc _) by (simpl in L; lia). destruct (class_parse r2) as [it rest]. cbn [fst snd items_b existsb].
+        rewrite (eqb_range x tc), orb_assoc. reflexivity.
+      * destruct r2 as [|b r3]; [apply Single; simpl in *; lia|].
+        destruct (x =? 45); [|apply Single; simpl in *; lia].
+        rewrite (IH r3 tc _) by (simpl in L; lia). destruct (class_parse r3) as [it rest]. cbn [fst snd items_b existsb].
+        rewrite orb_assoc. reflexivity.
+Qed.
+Lemma class_parse_len : forall n q, (length q <= n)%nat -> (length (snd (class_parse q)) <= length q)%nat.
+Proof.
+  induction n as [|n IH]; intros q L; [destruct q; [cbn; lia | simpl in L; lia]|].
+  destruct q as [|a r]; [cbn; lia|]. cbn [class_parse]. destruct (a =? 93); [cbn; lia|].
+  destruct r as [|x r2]; [cbn; lia|].
+  destruct (a =? 92).
+  - pose proof (IH r2 ltac:(simpl in *; lia)). destruct (class_parse r2). cbn [snd length] in *. lia.
+  - destruct r2 as [|b r3].
+    + pose proof (IH [x] ltac:(simpl in *; lia)). destruct (class_parse [x]). cbn [snd length] in *. lia.
+    + destruct (x =? 45).
+      * pose proof (IH r3 ltac:(simpl in *; lia)). destruct (class_parse r3). cbn [snd length] in *. lia.
+      * pose proof (IH (x :: b :: r3) ltac:(simpl in *; lia)). destruct (class_parse (x :: b :: r3)). cbn [snd length] in *. lia.
 Qed.
 
-Lemma class_loop_iff : forall n body c, (length body <= n)%nat -> class_loop body c = true <-> in_class body c.
+(** the class test of the matchers in terms of the declarative reading *)
+Lemma class_try_spec p' tc : class_try p' tc =
+  match class_split p' with
+  | (neg, items, rest) => if negb (Bool.eqb (items_b items tc) neg) then Some rest else None
+  end.
 Proof.
-  unfold in_class.
-  induction n as [|n IH]; intros body c L.
-  - destruct body; [|simpl in L; lia]. cbn. split; [discriminate | intros (lo & hi & [] & _)].
-  - destruct body as [|lo rest]; [cbn; split; [discriminate | intros (l & h & [] & _)]|].
-    assert (Single : (if c =? lo then true else class_loop rest c) = true <->
-                     exists l h, In (l, h) ((lo, lo) :: class_items rest) /\ l <= c <= h).
-    { destruct (Z.eqb_spec c lo) as [->|N].
-      - split; [|reflexivity]. intros _. exists lo, lo. split; [left; reflexivity | lia].
-      - rewrite (IH rest c) by (simpl in L; lia). split.
-        + intros (l & h & Hin & Hr). exists l, h. split; [right; exact Hin | exact Hr].
-        + intros (l & h & [E|Hin] & Hr); [injection E as <- <-; lia|]. exists l, h. split; assumption. }
-    destruct rest as [|m [|hi rest']]; try exact Single.
-    cbn [class_loop class_items]. destruct (Z.eqb_spec m 45) as [->|N]; [|exact Single].
-    destruct ((lo <=? c) && (c <=? hi)) eqn:E.
-    + split; [|reflexivity]. intros _. exists lo, hi. split; [left; reflexivity | lia].
-    + rewrite (IH rest' c) by (simpl in L; lia). split.
-      * intros (l & h & Hin & Hr). exists l, h. split; [right; exact Hin | exact Hr].
-      * intros (l & h & [E2|Hin] & Hr); [injection E2 as <- <-; lia|]. exists l, h. split; assumption.
+  unfold class_try, class_split.
+  set (negate := match p' with c :: _ => c =? 94 | [] => false end).
+  rewrite (class_scan_spec _ _ tc false (le_n _)). cbn [orb].
+  destruct (class_parse (if negate then tl p' else p')) as [items rest]. reflexivity.
 Qed.
-
-Lemma class_ok_iff inner c : class_ok inner c = true <-> class_accepts inner c.
+Lemma class_split_len p' neg items rest : class_split p' = (neg, items, rest) -> (length rest <= length p')%nat.
 Proof.
-  unfold class_ok, class_accepts. destruct inner as [|c0 body].
-  - cbn. split; [discriminate | intros []].
-  - destruct (c0 =? 94); cbn [tl].
-    + destruct (class_loop body c) eqn:E; cbn.
-      * split; [discriminate|]. intros H. exfalso. apply H. apply (class_loop_iff _ _ _ (le_n _)). exact E.
-      * split; [|reflexivity]. intros _ H. apply (class_loop_iff _ _ _ (le_n _)) in H. congruence.
-    + rewrite <- (class_loop_iff _ (c0 :: body) c (le_n _)).
-      destruct (class_loop (c0 :: body) c); cbn; split; congruence.
+  unfold class_split. destruct p' as [|c p''].
+  - cbn. intros E; inversion E; subst. cbn. lia.
+  - destruct (c =? 94); cbn [tl].
+    + pose proof (class_parse_len _ p'' (le_n _)) as H. destruct (class_parse p'') as [it r].
+      intros E; inversion E; subst. cbn [snd length] in *. lia.
+    + pose proof (class_parse_len _ (c :: p'') (le_n _)) as H. destruct (class_parse (c :: p'')) as [it r].
+      intros E; inversion E; subst. cbn [snd] in *. exact H.
+Qed.
+Lemma accepts_iff items tc neg : negb (Bool.eqb (items_b items tc) neg) = true <-> (in_items items tc <-> neg = false).
+Proof.
+  rewrite <- items_b_iff. destruct (items_b items tc), neg; cbn; split; intros H; try reflexivity; try discriminate.
+  - destruct H as [H _]. specialize (H eq_refl). discriminate.
+  - split; congruence.
+  - split; congruence.
+  - destruct H as [_ H]. specialize (H eq_refl). discriminate.
 Qed.
 
 (** the '[' arm *)
 Lemma try_class p' tc : ps_try (91 :: p') tc =
-  match split_close p' with
-  | Some (inner, rest) => if class_ok inner tc then PAdvance rest else PFail
-  | None => PFail
-  end.
+  match class_try p' tc with Some rest => PAdvance rest | None => PFail end.
 Proof. reflexivity. Qed.
 
 (** a pattern starting with '[' matches only through its class *)
 Lemma class_inv p' s : GlobSpec (91 :: p') s ->
-  exists inner p c s', p' = inner ++ 93 :: p /\ s = c :: s' /\ ~ In 93 inner /\ class_accepts inner c /\ GlobSpec p s'.
+  exists c s' neg items rest, s = c :: s' /\ class_split p' = (neg, items, rest) /\
+    (in_items items c <-> neg = false) /\ GlobSpec rest s'.
 Proof.
   intros G. inversion G; subst; try congruence.
-  exists inner, p, c, s0. repeat split; assumption.
+  exists c, s0, neg, items, rest. split; [reflexivity|]. split; [assumption|]. split; assumption.
 Qed.
 
 (** ---- one attempt ---- *)
@@ -158,7 +192,7 @@ Proof.
   destruct (Z.eqb_spec pc 63); [discriminate|].
   destruct (Z.eqb_spec pc 42) as [->|]; [intros H; injection H as ->; reflexivity|].
   destruct (Z.eqb_spec pc 91).
-  { destruct (split_close p') as [[inner rest]|]; [destruct (class_ok inner tc)|]; discriminate. }
+  { destruct (class_try p' tc); discriminate. }
   destruct (Z.eqb_spec pc 92); cbn [andb negb is_nil].
   - destruct p' as [|q p'']; cbn [andb negb is_nil].
     + destruct (pc =? tc); discriminate.
@@ -172,9 +206,9 @@ Proof.
   destruct (Z.eqb_spec pc 63); [intros H; injection H as <-; simpl; lia|].
   destruct (Z.eqb_spec pc 42); [discriminate|].
   destruct (Z.eqb_spec pc 91).
-  { destruct (split_close p') as [[inner rest]|] eqn:E; [|discriminate].
-    destruct (class_ok inner tc); [|discriminate]. intros H; injection H as <-.
-    apply split_close_spec in E as [-> _]. simpl. rewrite app_length. simpl. lia. }
+  { rewrite class_try_spec. destruct (class_split p') as [[neg items] rest] eqn:E.
+    destruct (negb (Bool.eqb (items_b items tc) neg)); [|discriminate]. intros H; injection H as <-.
+    apply class_split_len in E. simpl. lia. }
   destruct (Z.eqb_spec pc 92); cbn [andb negb is_nil].
   - destruct p' as [|q p'']; cbn [andb negb is_nil].
     + destruct (pc =? tc); [intros H; injection H as <-; simpl; lia | discriminate].
@@ -188,9 +222,9 @@ Proof.
   destruct (Z.eqb_spec pc 63) as [->|N1]; [intros H; injection H as <-; apply GS_any|].
   destruct (Z.eqb_spec pc 42) as [->|N2]; [discriminate|].
   destruct (Z.eqb_spec pc 91) as [->|N4].
-  { destruct (split_close p') as [[inner rest]|] eqn:E; [|discriminate].
-    destruct (class_ok inner tc) eqn:Ec; [|discriminate]. intros H; injection H as <-.
-    apply split_close_spec in E as [-> Hn]. intros G. apply GS_class; [exact Hn | apply class_ok_iff; exact Ec | exact G]. }
+  { rewrite class_try_spec. destruct (class_split p') as [[neg items] rest] eqn:E.
+    destruct (negb (Bool.eqb (items_b items tc) neg)) eqn:Ec; [|discriminate]. intros H; injection H as <-.
+    intros G. eapply GS_class; [exact E | apply accepts_iff; exact Ec | exact G]. }
   destruct (Z.eqb_spec pc 92) as [->|N3]; cbn [andb negb is_nil].
   - destruct p' as [|q p'']; cbn [andb negb is_nil].
     + destruct (Z.eqb_spec 92 tc) as [<-|]; [|discriminate].
@@ -211,10 +245,10 @@ Proof.
   { intros H; injection H as <-. intros G. inversion G; subst; try congruence. eauto. }
   destruct (Z.eqb_spec pc 42) as [->|N2]; [discriminate|].
   destruct (Z.eqb_spec pc 91) as [->|N4].
-  { destruct (split_close p') as [[inner rest]|] eqn:E; [|discriminate].
-    destruct (class_ok inner tc); [|discriminate]. intros H; injection H as <-. intros G.
-    destruct (class_inv _ _ G) as (inner0 & p0 & c & s' & -> & -> & Hn & _ & G').
-    rewrite (split_close_app _ _ Hn) in E. injection E as <- <-. eauto. }
+  { rewrite class_try_spec. destruct (class_split p') as [[neg items] rest] eqn:E.
+    destruct (negb (Bool.eqb (items_b items tc) neg)); [|discriminate]. intros H; injection H as <-. intros G.
+    destruct (class_inv _ _ G) as (c & s' & neg0 & items0 & rest0 & -> & E0 & _ & G').
+    rewrite E in E0. injection E0 as <- <- <-. eauto. }
   destruct (Z.eqb_spec pc 92) as [->|N3]; cbn [andb negb is_nil].
   - destruct p' as [|q p'']; cbn [andb negb is_nil].
     + destruct (Z.eqb_spec 92 tc) as [<-|]; [|discriminate].
@@ -232,9 +266,9 @@ Proof.
   destruct (Z.eqb_spec pc 63) as [->|N1]; [discriminate|].
   destruct (Z.eqb_spec pc 42) as [->|N2]; [discriminate|].
   destruct (Z.eqb_spec pc 91) as [->|N4].
-  { intros H G. destruct (class_inv _ _ G) as (inner0 & p0 & c & s' & -> & Es & Hn & Ha & _).
-    injection Es as <- <-. rewrite (split_close_app _ _ Hn) in H.
-    apply class_ok_iff in Ha. rewrite Ha in H. discriminate. }
+  { intros H G. destruct (class_inv _ _ G) as (c & s' & neg0 & items0 & rest0 & Es & E0 & Ha & _).
+    injection Es as <- <-. rewrite class_try_spec, E0 in H.
+    apply accepts_iff in Ha. rewrite Ha in H. discriminate. }
   destruct (Z.eqb_spec pc 92) as [->|N3]; cbn [andb negb is_nil].
   - destruct p' as [|q p'']; cbn [andb negb is_nil].
     + destruct (Z.eqb_spec 92 tc) as [<-|N]; [discriminate|].
@@ -357,3 +391,29 @@ Lemma ps_match_correct p t : ps_match p t = true <-> GlobSpec p t.
 Proof.
   unfold ps_match, ps_fuel. apply (loop_none _ p t (length p + 2)%nat); lia.
 Qed.
+
+
+(** ---- the KEYS / SCAN MATCH matcher (engine.rs pattern_matches, Model/Glob.v) is the same
+    algorithm: it decides the same declarative glob ---- *)
+Lemma glob_try_ps p tc t' : glob_try p tc t' =
+  match ps_try p tc with PAdvance p2 => GAdvance p2 t' | PStar p2 => GStar p2 | PFail => GFail end.
+Proof.
+  unfold glob_try, ps_try. destruct p as [|pc p']; [reflexivity|].
+  destruct (pc =? 63); [reflexivity|]. destruct (pc =? 42); [reflexivity|].
+  destruct (pc =? 91); [destruct (class_try p' tc); reflexivity|].
+  destruct p' as [|q p'']; cbn [is_nil negb andb].
+  - rewrite andb_false_r. destruct (pc =? tc); reflexivity.
+  - destruct (pc =? 92); cbn [andb]; [destruct (q =? tc); reflexivity | destruct (pc =? tc); reflexivity].
+Qed.
+Lemma glob_loop_ps : forall fuel p t star, glob_loop fuel p t star = ps_loop fuel p t star.
+Proof.
+  induction fuel as [|f IH]; intros p t star; [reflexivity|]. cbn [glob_loop ps_loop].
+  destruct t as [|tc t'].
+  - unfold is_nil. destruct (drop_while (fun c => c =? 42) p); reflexivity.
+  - rewrite glob_try_ps. destruct (ps_try p tc); [apply IH | apply IH |].
+    destruct star as [[sp st]|]; [apply IH | reflexivity].
+Qed.
+Theorem glob_match_ps p t : glob_match p t = ps_match p t.
+Proof. unfold glob_match, ps_match, glob_fuel, ps_fuel. apply glob_loop_ps. Qed.
+Theorem glob_match_correct p t : glob_match p t = true <-> GlobSpec p t.
+Proof. rewrite glob_match_ps. apply ps_match_correct. Qed.
